@@ -529,6 +529,11 @@ func nodeType2(interp *Interpreter, sc *scope, n *node, seen []*node) (t *itype,
 			case constant.String:
 				t = untypedString(n)
 			case constant.Int:
+				if constant.BitLen(v) > 512 {
+					// Same limit on untyped integer constants as the Go toolchain.
+					err = n.cfgErrorf("constant overflow")
+					break
+				}
 				t = untypedInt(n)
 				if strings.HasPrefix(n.ident, "'") {
 					// A rune literal, already converted to a constant by a previous call.
